@@ -5,5 +5,5 @@
 set -e
 D=/tmp/seed_$1
 git -C /repo worktree add --detach "$D" HEAD >/dev/null 2>&1
-rsync -a --exclude .git /repo/ "$D"/
+rsync -a --exclude .git /repo/ "$D"/ || [ $? -eq 24 ]
 echo "$D"
